@@ -24,6 +24,14 @@ CHECKS = {
             "VCs from the AST of persistent_entropy for 12-16 flag/input-form variants: D6 mask contract, Sigma-extensionality/positivity meta-rules, raises-iff clauses, z3/cvc5; exhaustive small-scope run-time stand-in",
             "For every flag combination and for single/list input the real function is proved to return -sum p log p of the retained bar lengths (divided by log n when normalised), to raise exactly when a retained bar has non-positive length or keep_inf lacks a value, for all barcode sizes and contents. Bounds (Jensen) and invariances are sampled / proved on the spec.",
             "floats as reals with tagged infinities; log uninterpreted with sign facts; Sigma meta-rules (induction) trusted; D6 mask-indexing contract assumed; generator, models, contracts trusted"),
+    "C15": ("proof",
+            "VCs from the AST of sliced_wasserstein: diagonal-projection obligations (NRA with h^2=1/2), loop invariant sw == (1/M) Sigma_i cityblock(sorted V1_i, sorted V2_i) with sorted/cityblock as functional contracts, z3/cvc5; bounded run-time laws",
+            "The real function is proved, for all diagram sizes, contents (either sign) and M >= 1, to project every point to ((b+d)/2,(b+d)/2), to use directions (1/2 + i/M) pi and to return the average of the sorted-L1 costs. Metric laws and the 2*W1 bound are sampled.",
+            "floats (incl. the float32 direction vectors) as reals; sorted/cityblock contracts D12/D18 functional in their inputs; cos/sin uninterpreted except at pi/4; generator, models, contracts trusted"),
+    "C13": ("other",
+            "VCs from the AST of uniform/norm_cdf/sbvn_cdf/gaussian/gauss_legendre_quad (full functional contracts) and of bvn_cdf (control skeleton: standardisation, regime test, three guards, sign flip, final combinations), z3/cvc5; the quadrature accuracy is a bounded numeric comparison against SciPy and an mpmath integral",
+            "Mixed. Proved for all inputs: box CDF, product form for zero covariance, dispatch, Gauss-Legendre tables = leggauss nodes/weights, thresholds 0.3/0.75/0.925, Genz's guards and final combinations on every path of the real bvn_cdf. Bounded: 1e-7 agreement with two independent reference CDFs on 1.5k (quick) / 60k (thorough) points across all branch thresholds, range, monotonicity, rectangle mass, tails.",
+            "erfc/exp/sin/arcsin/sqrt uninterpreted; arithmetic definedness inside bvn_cdf assumed; accuracy only sampled; generator, models, contracts trusted"),
 }
 
 NOT_YET = "check not built yet in this session (planned per DESIGN.md section 5)"
